@@ -345,7 +345,7 @@ func c06InitialJobs(c *ctx, r *rng.R) []iso.Job {
 	for _, d := range []int{10, 1000, c.pick(20000, 100000)} {
 		add("nesting", c06Recipe(fmt.Sprintf("nest-unclosed %d", d)), "")
 	}
-	n := c.pick(30000, 900000)
+	n := c.pick(90000, 900000)
 	maxLen := c.pick(64<<10, 1<<20)
 	for i := 0; i < n; i++ {
 		switch i % 6 {
